@@ -109,7 +109,7 @@ SPECS = {
         assumptions=["strings passed to from_str are ASCII (a multi-byte first character makes `&input[..1]` panic; not modelled)"],
     ),
     "C02": engine_spec("C02", r"(p\d+\.\d+(\.size|\.dir)?$|v\d+\.total)",
-                       shards(10, 40) + shards(6, 40, prof="liq"), shards(12, 150) + shards(4, 150, prof="liq")),
+                       shards(8, 40) + shards(4, 40, prof="liq") + shards(4, 40, prof="pcf"), shards(10, 150) + shards(3, 150, prof="liq") + shards(3, 150, prof="pcf")),
     "C03": engine_spec("C03", r"bal\.", shards(8, 40, "cw20") + shards(8, 40, "native"), shards(8, 150, "cw20") + shards(8, 150, "native")),
     "C04": engine_spec("C04", r"(bal\.|p\d+\.\d+|e\.baddebt|v\d+\.(q|b|cpf))",
                        shards(8, 40) + shards(4, 40, prof="funding") + shards(4, 40, prof="pcf"), shards(10, 150) + shards(3, 150, prof="funding") + shards(3, 150, prof="pcf")),
